@@ -231,7 +231,7 @@ func definesVisibleGlobalAgain(p *Program) bool {
 
 // c10Interpret: the reference run; the one external program the workload calls (basename) is modelled.
 func c10Interpret(p *Program) Result {
-	it := &Interp{Width: 32, MaxSteps: interpBudget, prog: p}
+	it := &Interp{Width: 32, MaxSteps: interpBudget, prog: p, Stdin: strings.Split(strings.TrimSuffix(c10IOStdin, "\n"), "\n")}
 	it.AppHook = func(stages [][]string) (string, int) {
 		if len(stages) == 1 && stages[0][0] == "basename" && len(stages[0]) == 2 {
 			return filepath.Base(stages[0][1]) + "\n", 0
@@ -369,7 +369,53 @@ func c10Programs(c *Check) []*Program {
 			}
 		}
 	}
-	return progs
+	return append(progs, c10IOProgram())
+}
+
+// c10IOProgram: every identifier of this program lives across the statements whose translation uses the shell's
+// own machinery (input, read, write, exists, a captured command, the slice helpers, value lists, loops): a back end
+// that routes one of them through a shell variable, builtin or function of its own choosing (REPLY, command, ...)
+// meets the user's name here. It reads standard input (c10IOStdin). It is the LAST program of the list and is
+// visited by every name of the shell-name classes in every role and on every identifier of the role.
+const c10IOStdin = "first line\nsecond\nthird one\n"
+
+func c10IOProgram() *Program {
+	I := func(vs ...int64) Expr {
+		e := []Expr{}
+		for _, v := range vs {
+			e = append(e, il(v))
+		}
+		return SliceLit{TInt, e}
+	}
+	return SingleFile([]Stmt{
+		def("gtotal", il(1)),
+		def("gnote", sl("n")),
+		fn("early", []Param{{"val", TInt}, {"mark", TString}}, []Type{TInt}, def("twice", bin("*", vr("val"), il(2))), ifs(cmp("==", vr("mark"), sl("m")), OpAssign{"twice", "+", Len{vr("mark")}}), ret(bin("+", vr("twice"), il(1)))),
+		fn("work", []Param{{"amount", TInt}, {"tag", TString}}, []Type{TInt, TString},
+			def("base", bin("+", vr("amount"), vr("gtotal"))),
+			def("line", Input{}),
+			Write{Path: sl("store.txt"), Data: bin("+", vr("tag"), vr("line"))},
+			def("back", Read{sl("store.txt")}),
+			def("seen", Exists{sl("store.txt")}),
+			VarDecl{Names: []string{"outp", "errp", "codep"}, Short: true, Values: []Expr{AppCall{[]AppStage{{Name: "basename", Args: []Expr{bin("+", sl("dir/"), vr("tag"))}}}}}},
+			def("nums", I(1, 2)),
+			SliceSet{"nums", il(3), vr("amount")},
+			VarDecl{Names: []string{"dup"}, Type: TSliceInt},
+			def("cnt", Copy{"dup", vr("nums")}),
+			For{Kind: ForThree, Init: def("step", il(0)), Cond: cmp("<", vr("step"), il(2)), Post: IncDec{"step", true}, Body: []Stmt{OpAssign{"base", "+", vr("step")}}},
+			For{Kind: ForRange, RangeIdx: "at", RangeVal: "ch", Over: vr("tag"), Body: []Stmt{ifs(cmp("==", vr("ch"), sl("b")), OpAssign{"base", "+", vr("at")})}},
+			ifs(vr("seen"), OpAssign{"base", "+", bin("+", bin("+", vr("cnt"), vr("codep")), Len{vr("back")})}),
+			VarDecl{Names: []string{"lo", "hi"}, Short: true, Values: []Expr{vr("base"), vr("gtotal")}},
+			Assign{[]string{"lo", "hi"}, []Expr{vr("hi"), vr("lo")}},
+			set("gtotal", bin("+", vr("gtotal"), il(1))),
+			ret(bin("+", bin("*", vr("lo"), il(1000)), vr("hi")), bin("+", bin("+", bin("+", vr("back"), sl("|")), vr("outp")), vr("errp")))),
+		VarDecl{Names: []string{"first", "ftext"}, Short: true, Values: []Expr{call("work", il(3), sl("ab"))}},
+		def("answer", Input{sl("? ")}),
+		VarDecl{Names: []string{"second", "stext"}, Short: true, Values: []Expr{call("work", il(4), sl("cd"))}},
+		For{Kind: ForThree, Init: def("turn", il(0)), Cond: cmp("<", vr("turn"), il(2)), Post: IncDec{"turn", true}, Body: []Stmt{def("kept", Read{sl("store.txt")}), pr(vr("turn"), vr("kept"), Exists{sl("none.txt")})}},
+		pr(vr("first"), vr("ftext"), vr("second"), vr("stext")),
+		pr(vr("answer"), vr("gtotal"), vr("gnote"), call("early", vr("gtotal"), sl("m"))),
+	})
 }
 
 var identRe = regexp.MustCompile(`[A-Za-z_][A-Za-z0-9_]*`)
@@ -406,6 +452,7 @@ func checkC10(c *Check) {
 		own     map[string]bool
 		bash    string
 		batch   string
+		io      bool
 	}
 	bases := []base{}
 	harvest := map[string]string{} // name -> origin class
@@ -414,7 +461,7 @@ func checkC10(c *Check) {
 		if ref.Undefined != "" {
 			continue
 		}
-		b := base{p: p, ref: ref, roles: rolesOf(p), own: map[string]bool{}}
+		b := base{p: p, ref: ref, roles: rolesOf(p), own: map[string]bool{}, io: p == progs[len(progs)-1]}
 		vs, fs := CollectNames(p)
 		for _, n := range append(vs, fs...) {
 			b.own[n] = true
@@ -431,10 +478,10 @@ func checkC10(c *Check) {
 		// a base program must itself behave like the reference before its renamings mean anything
 		{
 			run := newSandbox()
-			rr := RunBash(run, ta.Script, RunOpts{Timeout: 10 * time.Second})
+			rr := RunBash(run, ta.Script, RunOpts{Timeout: 10 * time.Second, Stdin: c10IOStdin})
 			os.RemoveAll(run)
 			if rr.TimedOut {
-				if verdict, r2 := DecideTimeout(ta.Script, 200*ref.Steps+20000, RunOpts{}, newSandbox); verdict == "finished" {
+				if verdict, r2 := DecideTimeout(ta.Script, 200*ref.Steps+20000, RunOpts{Stdin: c10IOStdin}, newSandbox); verdict == "finished" {
 					rr = r2
 				} else if verdict == "inconclusive" {
 					c.Inconclusive("base program: bash watchdog fired twice without a step-limit verdict")
@@ -469,6 +516,14 @@ func checkC10(c *Check) {
 					harvest[w] = "bash-own-name"
 				}
 			}
+		}
+	}
+	// variables and builtins bash gives a meaning to although a fresh shell does not list them (set as a side effect of
+	// builtins, or special only once assigned)
+	for _, w := range []string{"REPLY", "OPTARG", "OPTERR", "MAPFILE", "COPROC", "PIPESTATUS", "FUNCNAME", "BASH_REMATCH", "RANDOM", "SRANDOM", "SECONDS", "EPOCHSECONDS", "LINENO", "GROUPS",
+		"OLDPWD", "PWD", "HOME", "IFS", "PATH", "CDPATH", "ENV", "BASH_ENV", "PS4", "POSIXLY_CORRECT", "TIMEFORMAT", "TMOUT", "GLOBIGNORE", "LC_ALL", "LANG", "TMPDIR", "SHELL", "HISTFILE", "BASH_XTRACEFD", "IGNOREEOF", "INPUTRC", "MAIL", "CHILD_MAX", "EXECIGNORE", "FCEDIT", "FIGNORE", "FUNCNEST", "HOSTFILE", "COLUMNS", "LINES", "PROMPT_COMMAND", "READLINE_LINE", "BASH_COMPAT", "BASH_LOADABLES_PATH", "histchars", "auto_resume"} {
+		if _, ok := harvest[w]; !ok {
+			harvest[w] = "bash-own-name"
 		}
 	}
 	for _, w := range []string{"errorlevel", "random", "cd", "date", "time", "path", "cmdcmdline", "cmdextversion", "comspec", "os", "pathext", "prompt", "temp", "tmp", "username", "ERRORLEVEL", "PATH", "nul", "con", "LF", "end", "eof"} {
@@ -525,6 +580,9 @@ func checkC10(c *Check) {
 	}
 	jobs := []job{}
 	for bi, b := range bases {
+		if os.Getenv("VERIF_C10_IO_ALL") != "" && !b.io {
+			continue
+		}
 		for _, role := range []string{"global", "local", "flocal", "param", "func", "loopvar", "floopvar", "lib-global", "lib-local", "lib-func"} {
 			cands := b.roles[role]
 			if len(cands) == 0 {
@@ -533,6 +591,25 @@ func checkC10(c *Check) {
 			for ni, to := range names {
 				if b.own[to] {
 					continue
+				}
+				if bases[bi].io {
+					// the io program: every name of the classes for which recorded findings exist visits this fixed program
+					// under a class of its own (<class>@io), so that the findings can list the exact (role, name) cells that
+					// fail on it instead of a whole class: the thorough tier tries every identifier of the role, the quick
+					// tier two of them (a subset of the same cells)
+					if cl := nameClass(to, harvest[to]); (cl == "bash-own-name" || cl == "bash-script-word" || cl == "temporary" || cl == "register") && harvest[to] != "near-miss" {
+						for k2, f2 := range cands {
+							if !c.Thorough() && os.Getenv("VERIF_C10_IO_ALL") == "" && k2 != ni%len(cands) && k2 != (ni+len(cands)/2)%len(cands) {
+								continue
+							}
+							classCount[cl+"@io"]++
+							jobs = append(jobs, job{bi, role, f2, to, cl + "@io"})
+						}
+						continue
+					}
+				}
+				if os.Getenv("VERIF_C10_IO_ALL") != "" {
+					continue // only the io program's cells are wanted (used to draw up the list of recorded cells)
 				}
 				if !c.Thorough() && bi >= 3 && ni%7 != bi%7 {
 					continue // quick tier: generated programs visit a seventh of the names each
@@ -745,16 +822,19 @@ func checkC10(c *Check) {
 			c.Violation(fmt.Sprintf("bash/%s/%s/%s", j.class, j.role, j.to), summary+": Transpile crashed: "+firstLine(ta.Panic), files)
 		} else if ta.Err == nil {
 			run := newSandbox()
-			rr := RunBash(run, ta.Script, RunOpts{Timeout: 6 * time.Second})
+			rr := RunBash(run, ta.Script, RunOpts{Timeout: 6 * time.Second, Stdin: c10IOStdin})
 			os.RemoveAll(run)
 			if rr.TimedOut {
 				// decided on logical steps, not on wall time
-				verdict, r2 := DecideTimeout(ta.Script, 200*b.ref.Steps+20000, RunOpts{}, newSandbox)
+				verdict, r2 := DecideTimeout(ta.Script, 200*b.ref.Steps+20000, RunOpts{Stdin: c10IOStdin}, newSandbox)
 				switch verdict {
 				case "finished":
 					rr = r2
 				case "inconclusive":
 					c.Inconclusive("bash watchdog fired twice without a step-limit verdict")
+					if os.Getenv("VERIF_VERBOSE") != "" {
+						fmt.Printf("I bash/%s/%s/%s :: %s\n", j.class, j.role, j.to, summary)
+					}
 					return
 				}
 			}
@@ -781,7 +861,7 @@ func checkC10(c *Check) {
 			okAny := false
 			var last CmdResult
 			for v := 0; v < 2; v++ {
-				r := RunCmdModel(tb.Script, 600*b.ref.Steps+20000, dir, "", v == 1)
+				r := RunCmdModel(tb.Script, 600*b.ref.Steps+20000, dir, c10IOStdin, v == 1)
 				last = r
 				if r.Unmodelled != "" {
 					c.Inconclusive("cmd model: " + firstWords(r.Unmodelled, 4))
